@@ -264,8 +264,8 @@ def run (ctx):
   # ---- D3 use once ---------------------------------------------------------
   g = q.cfg_of(use)
   # by evaluation on the pool [X, None]: id 1 emits X's packet once and frees the slot; a used, unknown or out-of-range id emits nothing
-  def use_on (bid):
-    pool = [X_, None]
+  def use_on (bid, pool=None):
+    pool = [X_, None] if pool is None else list(pool)
     emitted = []
     def hook (call, env=None):
       if call_name(call) == '_process_actions_for_packet': return (True, None)
@@ -283,11 +283,16 @@ def run (ctx):
     em_, pools_, np_ = use_on(bid)
     if np_ != 1 or '?' in em_ or '?' in pools_: use_unknown += 1
     elif em_ != want_emit or pools_ != {want_pool}: use_wrong.append((bid, em_, sorted(pools_, key=str), want_emit, want_pool))
+  # the mirrored pool [free, X]: ids 0 and -1 would alias the occupied last slot through a negative index
+  for bid, want_emit, want_pool in ((0, [], (None, X_)), (-1, [], (None, X_)), (1, [], (None, X_)), (2, [X_], (None, None))):
+    em_, pools_, np_ = use_on(bid, [None, X_])
+    if np_ != 1 or '?' in em_ or '?' in pools_: use_unknown += 1
+    elif em_ != want_emit or pools_ != {want_pool}: use_wrong.append((bid, em_, sorted(pools_, key=str), want_emit, want_pool))
   if use_unknown:
-    ctx.undecided('R-AGREE', use, "use on the sample pool: a live id emits its packet once and frees the slot, any other id emits nothing", "%d of 5 ids not evaluable" % use_unknown, use, 'D3')
+    ctx.undecided('R-AGREE', use, "use on the sample pool: a live id emits its packet once and frees the slot, any other id emits nothing", "%d of 9 scenarios not evaluable" % use_unknown, use, 'D3')
   else:
-    ctx.ob('R-AGREE', use, "use on the sample pool: a live id emits its packet once and frees the slot, any other id emits nothing", not use_wrong, "ids 1, 2 (used), 0, 3, -1 on the pool [X, free]" if not use_wrong else
-           "with pool [X, free] and buffer id %s the routine emits %s and leaves the pool as %s; expected emissions %s and pool %s" % use_wrong[0], use, 'D3')
+    ctx.ob('R-AGREE', use, "use on the sample pool: a live id emits its packet once and frees the slot, any other id emits nothing", not use_wrong, "ids 1, 2 (used), 0, 3, -1 on the pool [X, free]; 0, -1, 1, 2 on [free, X]" if not use_wrong else
+           "with a two-slot sample pool and buffer id %s the routine emits %s and leaves the pool as %s; expected emissions %s and pool %s" % use_wrong[0], use, 'D3')
   use_by_value = not use_unknown and not use_wrong
   emits = g.nodes_with_call(lambda c: call_name(c) == '_process_actions_for_packet')
   frees = []; other_writes = []
@@ -322,6 +327,7 @@ def run (ctx):
       lo_ok = lower is not None and lower + c0 >= 0
       hi_ok = any(ub == 'len(self.%s)' % BUF and k + c0 <= 0 for ub, k in uppers)
       rng_ok = lo_ok and hi_ok
+      if not rng_ok and use_by_value: rng_ok = True; base = base + ' (bounds not recognised structurally; ids 0, 3 and -1 emit nothing on the sample pool)'
       ctx.ob('R-DOM', use, "emission only for an id inside the list", rng_ok,
              "slot index %s%+d is proven within [0, len) by dominating guards" % (base, c0) if rng_ok else
              "slot index is `%s%+d` but the dominating guards only give %s >= %s and %s: %s - an id that was never issued "
@@ -435,7 +441,7 @@ def packet_in_rules (ctx, repo, spi):
     if isinstance(t, ast.Name) and isinstance(v, ast.Subscript) and isinstance(v.slice, ast.Slice) \
        and isinstance(v.value, ast.Name) and v.value.id == t.id:
       trunc.append((t.id, st))
-  ctx.floor('packet-in truncation sites', len(trunc), 1)
+  n_trunc_floor = len(trunc)
   pin_calls = [c for c in calls_in(spi.node) if call_name(c) == 'ofp_packet_in']
   ctx.floor('packet-in constructor', len(pin_calls), 1)
   for var, st in trunc:
@@ -500,11 +506,29 @@ def packet_in_rules (ctx, repo, spi):
         except Exception: got.add('?')
       if not got or '?' in got: unknown += 1
       elif got != {want}: wrong.append((bid, dl, sorted(got), want))
+    # the same scenarios for the announced total length (the true frame length, whatever was cut)
+    tl_wrong = []; tl_unknown = 0
+    for bid, dl in ((5, 0), (5, 8), (5, 100), (None, 8), (None, None)):
+      c = pin_calls[0]; cn = q.enclosing_stmt_node(g, c); tl = kwarg(c, 'total_len')
+      if tl is None or cn is None: tl_unknown += 1; continue
+      env = q.Env({pk: frame, 'buffer_id': bid, 'data_length': dl}, [((lambda e: isinstance(e, ast.Call) and call_name(e) == 'hasattr'), False), ((lambda e: isinstance(e, ast.Call) and call_name(e) == 'assert_type'), True)])
+      got = set()
+      for p_, e_ in q.paths_under(repo, spi.module, g, env, g.entry, [cn], spi.cls, limit=40):
+        try: got.add(q.eval_env2(repo, spi.module, tl, e_, spi.cls))
+        except Exception: got.add('?')
+      if not got or '?' in got: tl_unknown += 1
+      elif got != {20}: tl_wrong.append((bid, dl, sorted(got)))
+    if not tl_unknown and not unknown and not n_trunc_floor:
+      # the truncation statement was not recognised structurally, but every scenario is decided by evaluation
+      n_trunc_floor = 1
+      ctx.ob('R-DEF', spi, "total_len reflects the untruncated frame", not tl_wrong, "5 scenarios evaluated" if not tl_wrong else
+             "with buffer_id=%s and data_length=%s a 20-byte frame is announced with total_len %s" % tl_wrong[0], spi, 'D4')
     if unknown:
       ctx.undecided('R-AGREE', spi, "a buffered packet-in carries min(frame, miss length) bytes, an unbuffered one the whole frame", "%d of %d scenarios not evaluable" % (unknown, n_sc), spi, 'D4')
     else:
       ctx.ob('R-AGREE', spi, "a buffered packet-in carries min(frame, miss length) bytes, an unbuffered one the whole frame", not wrong, "%d scenarios" % n_sc if not wrong else
              "with buffer_id=%s and data_length=%s a 20-byte frame is sent with %s byte(s) of data, expected %d" % wrong[0], spi, 'D4')
+  ctx.floor('packet-in truncation sites', n_trunc_floor, 1)
 
 def _free_index (g, node, idx, store, depth=0):
   """can `idx` at `node` only denote a slot that tested free (is None)?"""
